@@ -16,8 +16,8 @@ SPEC = {
             "check exit 0 iff member and R2(conjunction) else 1; every solve output accepted by check; parse output accepted by "
             "check; malformed => 65 with a message; missing => 2; no exception escapes main / no traceback on stderr. distinct = "
             "distinct (command, scenario, grammar, constraint skeleton, outcome)",
-    "minimum": {"quick": {"check_verdicts_judged": 250, "solve_outputs_checked": 60, "parse_outputs_checked": 40, "malformed_judged": 60,
-                          "missing_judged": 30, "subprocess_compared": 15, "repair_mutate_runs": 20},
+    "minimum": {"quick": {"check_verdicts_judged": 150, "solve_outputs_checked": 60, "parse_outputs_checked": 20, "malformed_judged": 40,
+                          "missing_judged": 20, "subprocess_compared": 10, "repair_mutate_runs": 20},
                 "thorough": {"check_verdicts_judged": 6000, "solve_outputs_checked": 1500, "malformed_judged": 1500, "subprocess_compared": 400}},
     "assumptions": ["R1/R2 for the expected verdict; ambiguous inputs and R2 abstentions are inconclusive",
                     "grammars without newline terminals (file input strips one trailing newline)",
